@@ -19,7 +19,7 @@ func drvRules() []*Rule {
 		{ID: "DRV-3", Props: []string{"C19", "C20"}, Min: 3,
 			Doc: "the producer publishes SelectDone's error into Rows.err before wg.Done and before the deferred close; wg.Add precedes the go statement",
 			Run: runDrv3},
-		{ID: "DRV-4", Props: []string{"C19", "C20"}, Min: 2,
+		{ID: "DRV-4", Props: []string{"C19", "C20", "C17"}, Min: 2,
 			Doc: "Rows.Close cancels, then waits, then reads the error it returns",
 			Run: runDrv4},
 		{ID: "DRV-5", Props: []string{"C19", "C20"}, Min: 4,
